@@ -2,6 +2,7 @@ package boolfn
 
 import (
 	"fmt"
+	"os"
 	"go/constant"
 	"go/token"
 	"go/types"
@@ -70,6 +71,11 @@ type Eval struct {
 	// ForcePath evaluates every function path by path, which library calls
 	// with several outcomes (strings.Cut, IndexByte, ...) need
 	ForcePath bool
+	// Override gives meaning to calls before anything else is tried (also to
+	// functions of the module that would otherwise be entered)
+	Override func(name string, call *ssa.CallCommon, args []Val) (Val, bool)
+	// NoMerge disables the merging of pure branch regions in path mode
+	NoMerge bool
 	// Assume restricts the evaluation to the inputs on which it holds (0: no
 	// restriction); results are meaningful only there
 	Assume int
@@ -201,9 +207,14 @@ func (e *Eval) call(fn *ssa.Function, args []Val) []Val {
 			}
 		}
 	}
-	if fn.Recover != nil {
-		unsupported("%s has a recover block", fn.Name())
+	// deferred calls of this invocation, in registration order (the recover
+	// block is reached only through a panic, which is outside the grammar)
+	type deferRec struct {
+		call *ssa.CallCommon
+		fn   Val
+		args []Val
 	}
+	var defers []deferRec
 	vals := map[ssa.Value]Val{}
 	if len(args) != len(fn.Params) {
 		unsupported("arity mismatch calling %s", fn.Name())
@@ -238,7 +249,7 @@ func (e *Eval) call(fn *ssa.Function, args []Val) []Val {
 		if f, ok := v.(*ssa.Function); ok {
 			return Val{Kind: KOpaque, Name: "func:" + f.String(), Fn: f}
 		}
-		if g, ok := v.(*ssa.Global); ok && e.ErrorsAsBits {
+		if g, ok := v.(*ssa.Global); ok && (e.ErrorsAsBits || (g.Pkg != nil && g.Pkg.Pkg.Path() == "encoding/binary")) {
 			return Val{Kind: KOpaque, Name: "global:" + g.Name()}
 		}
 		bv, ok := vals[v]
@@ -247,7 +258,15 @@ func (e *Eval) call(fn *ssa.Function, args []Val) []Val {
 		}
 		return bv
 	}
+	type fieldKey struct {
+		x ssa.Value
+		f int
+	}
+	fieldCells := map[fieldKey]*cell{}
 	var results []Val
+	var retAlts []ChoiceAlt // per return: the condition and the results (path mode)
+	strSet := map[int]bool{}
+	strConflict := false
 	nres := fn.Signature.Results().Len()
 	isErrResult := func(i int) bool {
 		return e.ErrorsAsBits && i < nres && fn.Signature.Results().At(i).Type().String() == "error"
@@ -303,10 +322,18 @@ func (e *Eval) call(fn *ssa.Function, args []Val) []Val {
 			if rs[i].Kind == KSym || rs[i].Kind == KStr || rs[i].Kind == KSlice {
 				// strings are not merged: the returns that can be reached must
 				// come one per evaluation (the caller fixes the scenario)
-				if cond == 1 {
-					results[i] = rs[i]
-				} else if cond != 0 {
-					unsupported("string result under a symbolic condition in %s", fn.Name())
+				if cond == 0 {
+					continue
+				}
+				// the first string stands; a second, different one would need a
+				// string merge
+				if !strSet[i] {
+					results[i], strSet[i] = rs[i], true
+				} else if !sameString(results[i], rs[i]) {
+					if !loopy {
+						unsupported("different string results on different paths of %s", fn.Name())
+					}
+					strConflict = true
 				}
 				continue
 			}
@@ -432,7 +459,15 @@ func (e *Eval) call(fn *ssa.Function, args []Val) []Val {
 				if !e.ErrorsAsBits {
 					unsupported("unsupported instruction %T %s in %s", ins, ins, fn.Name())
 				}
-				vals[v] = Val{Kind: KCell, cell: &cell{}}
+				// one cell per (object, field) of this invocation, so that what is
+				// stored through one address is read back through another
+				fk := fieldKey{v.X, v.Field}
+				fc := fieldCells[fk]
+				if fc == nil {
+					fc = &cell{}
+					fieldCells[fk] = fc
+				}
+				vals[v] = Val{Kind: KCell, cell: fc}
 			case *ssa.Lookup:
 				a := get(v.X)
 				i, ok := constIdx(v.Index)
@@ -514,7 +549,7 @@ func (e *Eval) call(fn *ssa.Function, args []Val) []Val {
 					el := make([][]int, len(x.cell.arr))
 					copy(el, x.cell.arr)
 					vals[v] = Val{Kind: KArray, Elems: el}
-				case v.Op == token.MUL && x.Kind == KOpaque && e.ErrorsAsBits:
+				case v.Op == token.MUL && x.Kind == KOpaque && (e.ErrorsAsBits || strings.HasPrefix(x.Name, "global:")):
 					if isErrType(v.Type()) {
 						vals[v] = BoolVal(1) // a package-level error value
 					} else {
@@ -523,7 +558,9 @@ func (e *Eval) call(fn *ssa.Function, args []Val) []Val {
 				case v.Op == token.MUL && x.Kind == KCell && x.cell.set && x.cell.val.Kind != KBits:
 					vals[v] = *x.cell.val
 				case v.Op == token.MUL && x.Kind == KCell:
-					if !x.cell.set {
+					if !x.cell.set && isErrType(v.Type()) {
+						vals[v] = BoolVal(0) // the nil error
+					} else if !x.cell.set {
 						// zero value
 						w, s, ok := widthOf(v.Type())
 						if !ok {
@@ -623,6 +660,8 @@ func (e *Eval) call(fn *ssa.Function, args []Val) []Val {
 				vals[v] = Val{Kind: KArrPtr, cell: c}
 			case *ssa.ChangeType:
 				vals[v] = get(v.X)
+			case *ssa.ChangeInterface:
+				vals[v] = get(v.X)
 			case *ssa.MakeInterface:
 				if isErrType(v.Type()) {
 					vals[v] = BoolVal(1) // a non-nil error
@@ -657,14 +696,18 @@ func (e *Eval) call(fn *ssa.Function, args []Val) []Val {
 						unsupported("phi of non-integer values in %s", fn.Name())
 					}
 					if first {
-						out = Val{Kind: KBits, Bits: make([]int, len(x.Bits)), Signed: x.Signed}
+						// the first live edge as it is; the others are selected by
+						// their edge conditions (bits on which the edges agree stay
+						// what they are, e.g. the constant bits of a loop counter)
+						out = Val{Kind: KBits, Bits: append([]int(nil), x.Bits...), Signed: x.Signed}
 						first = false
+						continue
 					}
 					if len(out.Bits) != len(x.Bits) {
 						unsupported("phi width mismatch in %s", fn.Name())
 					}
 					for k := range x.Bits {
-						out.Bits[k] = m.Or(out.Bits[k], m.And(ec, x.Bits[k]))
+						out.Bits[k] = m.Ite(ec, x.Bits[k], out.Bits[k])
 					}
 				}
 				if first { // unreachable block
@@ -730,6 +773,11 @@ func (e *Eval) call(fn *ssa.Function, args []Val) []Val {
 			case *ssa.MakeSlice:
 				n, ok := constIdx(v.Len)
 				w, _, isInt := widthOf(v.Type().Underlying().(*types.Slice).Elem())
+				if ok && (!isInt || w != 8) && n >= 0 && n <= 4096 {
+					// a slice of values that are not bytes
+					vals[v] = Val{Kind: KSlice, cell: &cell{items: make([]Val, n)}, Lo: 0, Hi: n}
+					continue
+				}
 				if !ok || !isInt || w != 8 || n < 0 || n > 4096 {
 					unsupported("unsupported make in %s", fn.Name())
 				}
@@ -762,7 +810,34 @@ func (e *Eval) call(fn *ssa.Function, args []Val) []Val {
 				for i, r := range v.Results {
 					rs[i] = get(r)
 				}
+				if loopy && reach[b] != 0 {
+					retAlts = append(retAlts, ChoiceAlt{reach[b], tupled(append([]Val(nil), rs...))})
+				}
 				mergeResult(reach[b], rs)
+			case *ssa.Defer:
+				if !loopy && reach[b] != 1 {
+					unsupported("conditionally registered defer in %s", fn.Name())
+				}
+				rec := deferRec{call: &v.Call}
+				if !v.Call.IsInvoke() {
+					if _, isB := v.Call.Value.(*ssa.Builtin); !isB {
+						if _, isF := v.Call.Value.(*ssa.Function); !isF {
+							rec.fn = get(v.Call.Value)
+						}
+					}
+				}
+				for _, a := range v.Call.Args {
+					rec.args = append(rec.args, get(a))
+				}
+				defers = append(defers, rec)
+			case *ssa.RunDefers:
+				for i := len(defers) - 1; i >= 0; i-- {
+					d := defers[i]
+					e.outerCond = m.And(outer, reach[b])
+					e.callCommon(fn, d.call, d.fn, d.args)
+					e.outerCond = outer
+				}
+				defers = nil
 			case *ssa.Panic:
 				// a reachable panic is outside the grammar of total predicates
 				if reach[b] != 0 {
@@ -845,13 +920,84 @@ func (e *Eval) call(fn *ssa.Function, args []Val) []Val {
 			}
 		}
 	}
+	// pure: a block whose instructions have no outcome but their values,
+	// conditional stores and a conditional return: it can be evaluated under a
+	// symbolic condition and merged with its siblings
+	pure := func(b *ssa.BasicBlock) bool {
+		for _, in := range b.Instrs {
+			switch x := in.(type) {
+			case *ssa.BinOp, *ssa.UnOp, *ssa.Convert, *ssa.ChangeType, *ssa.ChangeInterface, *ssa.Phi, *ssa.IndexAddr, *ssa.Index,
+				*ssa.Lookup, *ssa.Slice, *ssa.FieldAddr, *ssa.Extract, *ssa.MakeInterface, *ssa.Store,
+				*ssa.If, *ssa.Jump, *ssa.Return, *ssa.DebugRef, *ssa.Alloc:
+			case *ssa.Call:
+				if bi, ok := x.Call.Value.(*ssa.Builtin); !ok || (bi.Name() != "len" && bi.Name() != "cap") {
+					return false
+				}
+			default:
+				return false
+			}
+		}
+		return true
+	}
+	// region finds, for a block ending in a two-way branch, the pure acyclic
+	// blocks behind it up to a single continuation block j (nil: no such shape)
+	region := func(b *ssa.BasicBlock) (order []*ssa.BasicBlock, j *ssa.BasicBlock) {
+		in := map[*ssa.BasicBlock]bool{}
+		state := map[*ssa.BasicBlock]int{} // 1 on stack, 2 done
+		ok := true
+		var post []*ssa.BasicBlock
+		var visit func(x *ssa.BasicBlock)
+		frontier := func(x *ssa.BasicBlock) {
+			if j == nil {
+				j = x
+			} else if j != x {
+				ok = false
+			}
+		}
+		visit = func(x *ssa.BasicBlock) {
+			if !ok || state[x] == 2 {
+				return
+			}
+			if state[x] == 1 || x == b || x.Dominates(b) || !pure(x) || len(in) > 24 {
+				// a cycle, the way back to a loop head, or a block that must be
+				// executed on one path: the continuation
+				if state[x] == 1 {
+					ok = false
+					return
+				}
+				frontier(x)
+				return
+			}
+			state[x] = 1
+			in[x] = true
+			for _, sc := range x.Succs {
+				visit(sc)
+			}
+			state[x] = 2
+			post = append(post, x)
+		}
+		for _, sc := range b.Succs {
+			visit(sc)
+		}
+		if !ok || len(in) == 0 {
+			return nil, nil
+		}
+		if j != nil && in[j] {
+			return nil, nil
+		}
+		for i := len(post) - 1; i >= 0; i-- {
+			order = append(order, post[i])
+		}
+		return order, j
+	}
+	merged := &ssa.BasicBlock{} // marker: the block is entered with merged edges
 	var run func(b, pred *ssa.BasicBlock, cond int, from int)
 	run = func(b, pred *ssa.BasicBlock, cond int, from int) {
 		steps++
 		if steps > e.budget() {
 			unsupported("%s: loop not bounded within the step budget", fn.Name())
 		}
-		if from == 0 {
+		if from == 0 && pred != merged {
 			for _, p := range b.Preds {
 				edge[[2]*ssa.BasicBlock{p, b}] = 0
 			}
@@ -861,6 +1007,9 @@ func (e *Eval) call(fn *ssa.Function, args []Val) []Val {
 		}
 		reach[b] = cond
 		curPred = pred
+		if pred == merged {
+			curPred = nil
+		}
 		for _, sc := range b.Succs {
 			edge[[2]*ssa.BasicBlock{b, sc}] = 0
 		}
@@ -872,6 +1021,7 @@ func (e *Eval) call(fn *ssa.Function, args []Val) []Val {
 					continue
 				}
 				vc, cs := snapshot()
+				savedDefers := append([]deferRec(nil), defers...)
 				vals[b.Instrs[at].(ssa.Value)] = alt.Val
 				if nx, isNext := b.Instrs[at].(*ssa.Next); isNext {
 					// the iterator advances by the width of the rune of this outcome
@@ -881,6 +1031,7 @@ func (e *Eval) call(fn *ssa.Function, args []Val) []Val {
 				}
 				run(b, pred, c2, at+1)
 				restore(vc, cs)
+				defers = savedDefers
 			}
 			return
 		}
@@ -897,14 +1048,65 @@ func (e *Eval) call(fn *ssa.Function, args []Val) []Val {
 				outs = append(outs, out{sc, ec})
 			}
 		}
+		if len(outs) == 2 && !e.NoMerge && os.Getenv("GSA_NOMERGE") == "" {
+			if order, j := region(b); order != nil {
+				// both branches are followed at once through the pure blocks
+				// behind the test and meet again in j
+				inReg := map[*ssa.BasicBlock]bool{}
+				for _, x := range order {
+					inReg[x] = true
+				}
+				targets := append([]*ssa.BasicBlock(nil), order...)
+				if j != nil {
+					targets = append(targets, j)
+				}
+				for _, x := range targets {
+					for _, p := range x.Preds {
+						if p != b {
+							edge[[2]*ssa.BasicBlock{p, x}] = 0
+						}
+					}
+				}
+				for _, x := range order {
+					r := 0
+					for _, p := range x.Preds {
+						r = m.Or(r, edge[[2]*ssa.BasicBlock{p, x}])
+					}
+					reach[x] = r
+					if r == 0 {
+						continue
+					}
+					steps++
+					curPred = nil
+					for _, sc := range x.Succs {
+						edge[[2]*ssa.BasicBlock{x, sc}] = 0
+					}
+					if at, _ := execBlock(x, 0); at >= 0 {
+						unsupported("a call with several outcomes inside a merged region of %s", fn.Name())
+					}
+				}
+				if j != nil {
+					cj := 0
+					for _, p := range j.Preds {
+						cj = m.Or(cj, edge[[2]*ssa.BasicBlock{p, j}])
+					}
+					if cj != 0 {
+						run(j, merged, cj, 0)
+					}
+				}
+				return
+			}
+		}
 		for i, o := range outs {
 			if i == len(outs)-1 {
 				run(o.to, b, o.cond, 0)
 				break
 			}
 			vc, cs := snapshot()
+			savedDefers := append([]deferRec(nil), defers...)
 			run(o.to, b, o.cond, 0)
 			restore(vc, cs)
+			defers = savedDefers
 		}
 	}
 	// the paths of a callee are explored under the absolute condition of the
@@ -914,6 +1116,31 @@ func (e *Eval) call(fn *ssa.Function, args []Val) []Val {
 		return results
 	}
 	run(fn.Blocks[0], nil, start, 0)
+	if strConflict {
+		// string results that differ between the paths cannot be merged: the
+		// caller continues once per return of this function
+		for i := range retAlts {
+			rv := retAlts[i].Val
+			fix := func(k int, x Val) Val {
+				if isErrResult(k) && x.Kind != KBits {
+					if x.Kind == KOpaque && x.Name == "nil" {
+						return BoolVal(0)
+					}
+					return BoolVal(1)
+				}
+				return x
+			}
+			if rv.Kind == KTuple {
+				for k := range rv.Tuple {
+					rv.Tuple[k] = fix(k, rv.Tuple[k])
+				}
+			} else {
+				rv = fix(0, rv)
+			}
+			retAlts[i].Val = rv
+		}
+		return []Val{{Kind: KChoice, Alts: retAlts}}
+	}
 	return results
 }
 
@@ -1209,10 +1436,54 @@ func (e *Eval) doCall(fn *ssa.Function, v *ssa.Call, get func(ssa.Value) Val) Va
 	for _, a := range c.Args {
 		args = append(args, get(a))
 	}
+	var fv Val
+	if !c.IsInvoke() {
+		if _, isB := c.Value.(*ssa.Builtin); !isB {
+			if _, isF := c.Value.(*ssa.Function); !isF {
+				fv = get(c.Value)
+			} else {
+				fv = get(c.Value)
+			}
+		}
+	}
+	return e.callCommon(fn, c, fv, args)
+}
+
+// callCommon performs a call whose operands are already evaluated (fv: the
+// value of the callee for calls through a function value).
+func (e *Eval) callCommon(fn *ssa.Function, c *ssa.CallCommon, fv Val, args []Val) Val {
+	get := func(ssa.Value) Val { return fv }
 	name := calleeName(c)
+	if e.Override != nil {
+		if r, ok := e.Override(name, c, args); ok {
+			return r
+		}
+	}
 	if name == "dynamic" {
-		if fv := get(c.Value); fv.Kind == KOpaque {
+		if fv.Kind == KOpaque {
 			name = "dynamic:" + fv.Name
+		}
+	}
+	if (name == "builtin.min" || name == "builtin.max") && len(args) >= 1 {
+		out := args[0]
+		okAll := out.Kind == KBits
+		for _, a := range args[1:] {
+			if !okAll || a.Kind != KBits || len(a.Bits) != len(out.Bits) {
+				okAll = false
+				break
+			}
+			lt := e.less(a.Bits, out.Bits, out.Signed) // a < out
+			if name == "builtin.max" {
+				lt = e.less(out.Bits, a.Bits, out.Signed) // out < a
+			}
+			nb := make([]int, len(out.Bits))
+			for i := range nb {
+				nb[i] = e.M.Ite(lt, a.Bits[i], out.Bits[i])
+			}
+			out = Val{Kind: KBits, Bits: nb, Signed: out.Signed}
+		}
+		if okAll {
+			return out
 		}
 	}
 	if (name == "builtin.len" || name == "builtin.cap") && len(args) == 1 {
@@ -1227,6 +1498,14 @@ func (e *Eval) doCall(fn *ssa.Function, v *ssa.Call, get func(ssa.Value) Val) Va
 		case KStr:
 			if name == "builtin.len" {
 				n = len(a.Str)
+			}
+		case KOpaque:
+			if a.Name == "nil" {
+				n = 0
+			}
+		case KSym:
+			if len(a.Segs) == 0 {
+				n = 0
 			}
 		}
 		if n >= 0 {
@@ -1413,4 +1692,27 @@ func (e *Eval) budget() int {
 		return e.Steps
 	}
 	return 20000
+}
+
+func sameString(a, b Val) bool {
+	if a.Kind != b.Kind {
+		return false
+	}
+	switch a.Kind {
+	case KStr:
+		return a.Str == b.Str
+	case KSlice:
+		if a.Lo != b.Lo || a.Hi != b.Hi || len(a.Elems) != len(b.Elems) {
+			return false
+		}
+		for i := a.Lo; i < a.Hi; i++ {
+			for k := range a.Elems[i] {
+				if a.Elems[i][k] != b.Elems[i][k] {
+					return false
+				}
+			}
+		}
+		return true
+	}
+	return false
 }
